@@ -17,7 +17,7 @@ Fixpoint show_tree (t : tree) : string :=
   | TSome x => "some(" ++ show_tree x ++ ")"
   | TSeq l => "seq[" ++ join "," (map show_tree l) ++ "]"
   | TTuple l => "tuple[" ++ join "," (map show_tree l) ++ "]"
-  | TStruct n f => "struct:" ++ n ++ "{" ++ join "," (map (fun kv => fst kv ++ ":" ++ show_tree (snd kv)) f) ++ "}"
+  | TStruct _ f => "struct{" ++ join "," (map (fun kv => fst kv ++ ":" ++ show_tree (snd kv)) f) ++ "}"
   | TVarN i n x => "variant:" ++ show_nat i ++ ":" ++ n ++ "(" ++ show_tree x ++ ")"
   | TVarS i n f => "variant:" ++ show_nat i ++ ":" ++ n ++ "{" ++ join "," (map (fun kv => fst kv ++ ":" ++ show_tree (snd kv)) f) ++ "}"
   end.
